@@ -43,3 +43,103 @@ package coreimport
 //@ modifies nothing
 //@ loop 0 invariant imp(rangeidx >= 1, str != "stdout") && imp(rangeidx >= 2, str != "stderr")
 //@ ensures [stdout-and-stderr] iff(ok, str == "stdout" || str == "stderr") && imp(ok, pluginType == str)
+
+// The core components are registered under their documented names, each with its own constructor and its documented
+// default configuration; the shorthand hooks are installed before the plugin hooks (which would otherwise see the
+// undecoded string or list), and the tag resolvers under their documented tags.
+//@ func Import
+//@ props C17 C18 C06 C01 C02
+//@ may_panic true
+//@ at call register.DataSink#0 assert [file-sink] arg(name) == "file"
+//@ at call register.DataSink#1 assert [stdout-sink] arg(name) == "stdout" && arg(newDataSink) == box(datasink.NewStdout)
+//@ at call register.DataSink#2 assert [stderr-sink] arg(name) == "stderr" && arg(newDataSink) == box(datasink.NewStderr)
+//@ at call register.DataSource#0 assert [file-source] arg(name) == "file"
+//@ at call register.DataSource#1 assert [stdin-source] arg(name) == "stdin" && arg(newDataSource) == box(datasource.NewStdin)
+//@ at call register.DataSource#2 assert [inline-source] arg(name) == "inline" && arg(newDataSource) == box(datasource.NewInline)
+//@ at call register.Aggregator#0 assert [phout-with-the-phout-defaults] arg(name) == "phout" && len(arg(defaultConfigOptional)) == 1 && arg(defaultConfigOptional)[0] == box(netsample.DefaultPhoutConfig)
+//@ at call register.Aggregator#1 assert [jsonlines-with-its-defaults] arg(name) == "jsonlines" && arg(newAggregator) == box(aggregator.NewJSONLinesAggregator) && len(arg(defaultConfigOptional)) == 1 && arg(defaultConfigOptional)[0] == box(aggregator.DefaultJSONLinesAggregatorConfig)
+//@ at call register.Aggregator#2 assert [json-is-jsonlines] arg(name) == "json" && arg(newAggregator) == box(aggregator.NewJSONLinesAggregator) && len(arg(defaultConfigOptional)) == 1 && arg(defaultConfigOptional)[0] == box(aggregator.DefaultJSONLinesAggregatorConfig)
+//@ at call register.Aggregator#3 assert [log] arg(name) == "log" && arg(newAggregator) == box(aggregator.NewLog) && len(arg(defaultConfigOptional)) == 0
+//@ at call register.Aggregator#4 assert [discard] arg(name) == "discard" && arg(newAggregator) == box(aggregator.NewDiscard) && len(arg(defaultConfigOptional)) == 0
+//@ at call register.Limiter#0 assert [line] arg(name) == "line" && arg(newLimiter) == box(schedule.NewLineConf)
+//@ at call register.Limiter#1 assert [const] arg(name) == "const" && arg(newLimiter) == box(schedule.NewConstConf)
+//@ at call register.Limiter#2 assert [once] arg(name) == "once" && arg(newLimiter) == box(schedule.NewOnceConf)
+//@ at call register.Limiter#3 assert [unlimited] arg(name) == "unlimited" && arg(newLimiter) == box(schedule.NewUnlimitedConf)
+//@ at call register.Limiter#4 assert [step] arg(name) == "step" && arg(newLimiter) == box(schedule.NewStepConf)
+//@ at call register.Limiter#5 assert [instance-step] arg(name) == "instance_step" && arg(newLimiter) == box(schedule.NewInstanceStepConf)
+//@ at call register.Limiter#6 assert [composite-under-the-name-the-list-shorthand-produces] arg(name) == compositeScheduleKey && arg(newLimiter) == box(schedule.NewCompositeConf)
+//@ at call config.AddTypeHook#0 assert [sink-shorthand] arg(hook) == sinkStringHook
+//@ at call config.AddTypeHook#1 assert [schedule-list-shorthand] arg(hook) == scheduleSliceToCompositeConfigHook
+//@ at call pluginconfig.AddHooks assert [plugin-hooks-come-after-the-shorthands] calls(config.AddTypeHook) == 2
+//@ at call confutil.RegisterTagResolver#0 assert [untagged-placeholders-are-environment-variables] arg(tagType) == "" && arg(resolver) == confutil.EnvTagResolver
+//@ at call confutil.RegisterTagResolver#1 assert [env] arg(tagType) == "ENV" && arg(resolver) == confutil.EnvTagResolver
+//@ at call confutil.RegisterTagResolver#2 assert [property] arg(tagType) == "PROPERTY" && arg(resolver) == confutil.PropertyTagResolver
+
+// The file sink and the file source are built on the file system Import was given, from the decoded configuration.
+//@ func Import#lit0
+//@ props C06 C18
+//@ at call datasink.NewFile assert [the-given-file-system-and-configuration] arg(fs) == fs && arg(conf) == conf
+//@ ensures result == result_of(datasink.NewFile, 0)
+
+//@ func Import#lit2
+//@ props C08 C18
+//@ at call datasource.NewFile assert [the-given-file-system-and-configuration] arg(fs) == fs && arg(conf) == conf
+//@ ensures result == result_of(datasource.NewFile, 0)
+
+// stdin is the one data-source shorthand.
+//@ func Import#lit3
+//@ props C17
+//@ modifies nothing
+//@ ensures [stdin-only] iff(ok, str == "stdin") && imp(ok, pluginType == "stdin")
+
+// The phout aggregator writes through the file system Import was given, with the decoded configuration; a construction
+// failure reaches the caller.
+//@ func Import#lit6
+//@ props C06 C18
+//@ requires [validated-by-the-decoder] conf.SampleQueueSize >= 0
+//@ at call netsample.NewPhout assert [the-given-file-system-and-configuration] arg(fs) == fs && arg(conf) == conf
+//@ at call netsample.WrapAggregator assert [that-aggregator] arg(a) == result_of(netsample.NewPhout, 0)
+//@ ensures [construction-failure-is-returned] result1 == result_of(netsample.NewPhout, 1) && result0 == result_of(netsample.WrapAggregator, 0)
+
+// A hook is added at the end of its own list; the other list is left alone.
+//@ func AddSinkConfigHook
+//@ props C17
+//@ modifies dataSinkConfigHooks
+//@ ensures len(dataSinkConfigHooks) == old(len(dataSinkConfigHooks)) + 1 && dataSinkConfigHooks[len(dataSinkConfigHooks)-1] == hook
+
+//@ func AddSourceConfigHook
+//@ props C17
+//@ modifies dataSourceConfigHooks
+//@ ensures len(dataSourceConfigHooks) == old(len(dataSourceConfigHooks)) + 1 && dataSourceConfigHooks[len(dataSourceConfigHooks)-1] == hook
+
+// A JSON ammo provider under the given name, with the JSON provider defaults, producing the given kind of ammo.
+//@ func RegisterCustomJSONProvider
+//@ props C18 C08
+//@ may_panic true
+//@ at call register.Provider assert [name-and-the-json-provider-defaults] arg(name) == name0 && len(arg(defaultConfigOptional)) == 1 && arg(defaultConfigOptional)[0] == box(provider.DefaultJSONProviderConfig)
+
+//@ func RegisterCustomJSONProvider#lit0
+//@ props C18 C08
+//@ may_panic true
+//@ requires [validated-by-the-decoder] conf.Decode.Queue.AmmoQueueSize >= 0
+//@ at call provider.NewJSONProvider assert [the-given-ammo-kind-and-the-decoded-configuration] arg(newAmmo) == newAmmo && arg(conf) == conf
+//@ ensures result == result_of(provider.NewJSONProvider, 0)
+
+// A string where a data source is expected: a registered shorthand name or else a file path (same shape as the sink hook).
+//@ func sourceStringHook
+//@ props C17
+//@ nilsafe
+//@ requires f != nil && t != nil
+//@ env [mapstructure-passes-the-type-of-the-data] imp(f.Kind() == reflect.String, typeis(data, string))
+//@ env forall(k, 0, len(dataSourceConfigHooks), dataSourceConfigHooks[k] != nil)
+//@ ensures [only-strings] imp(f.Kind() != reflect.String, result0 == data && result1 == nil)
+//@ ensures [only-where-a-source-is-expected] imp(calls(isPluginOrFactory) == 1 && !result_of(isPluginOrFactory, 0), result0 == data && result1 == nil)
+//@ loop 0 invariant [no-shorthand-matched-so-far] imp(rangeidx > 0, !ok)
+//@ ensures [a-plugin-section] imp(calls(isPluginOrFactory) == 1 && result_of(isPluginOrFactory, 0), result1 == nil && typeis(result0, map[string]interface{}) && has(result0.(map[string]interface{}), "type"))
+//@ ensures [file-path-is-the-fallback] imp(calls(isPluginOrFactory) == 1 && result_of(isPluginOrFactory, 0) && !ok, result0.(map[string]interface{})["type"] == box("file") && result0.(map[string]interface{})["path"] == data)
+//@ ensures [a-matching-shorthand-names-the-plugin] imp(calls(isPluginOrFactory) == 1 && result_of(isPluginOrFactory, 0) && ok, result0.(map[string]interface{})["type"] == box(pluginType))
+//@ at call isPluginOrFactory assert [source-target] arg(expectedPluginType) == dataSourceType && arg(actualType) == t
+
+//@ func GetFs
+//@ props C18
+//@ ensures result == result_of(afero.NewOsFs, 0)
